@@ -214,6 +214,7 @@ func New(cfg Config) (*Runner, error) {
 	}
 	r.Screen = s
 	r.Shadow = shadow.New(cfg.W, cfg.H)
+	r.Shadow.SnapshotLocked = true
 	return r, nil
 }
 
